@@ -21,6 +21,7 @@ import (
 	"k8s.io/apimachinery/pkg/types"
 	utilruntime "k8s.io/apimachinery/pkg/util/runtime"
 	"k8s.io/apimachinery/pkg/watch"
+	"k8s.io/client-go/dynamic"
 	dynamicfake "k8s.io/client-go/dynamic/fake"
 	clienttesting "k8s.io/client-go/testing"
 	"sigs.k8s.io/cli-utils/pkg/kstatus/polling/engine"
@@ -49,13 +50,70 @@ var kinds = []kindInfo{
 	{schema.GroupVersionKind{Group: "", Version: "v1", Kind: "Secret"}, "secrets", true, true},
 	{schema.GroupVersionKind{Group: "example.com", Version: "v1", Kind: "Widget"}, "widgets", true, false},
 	{schema.GroupVersionKind{Group: "rbac.authorization.k8s.io", Version: "v1", Kind: "ClusterRole"}, "clusterroles", false, true},
+	{schema.GroupVersionKind{Group: "", Version: "v1", Kind: "Pod"}, "pods", true, true},
 }
 
 const (
 	kNS     = 0
 	kCRD    = 1
 	kWidget = 4
+	kPod    = 6
 )
+
+// ---- a dynamic client that honours request contexts -------------------------------
+//
+// client-go's fake dynamic client ignores the context of a request; every real
+// client fails a request whose context is already done.  All scripts run the
+// watcher over this wrapper: correct code never issues a request on a dead
+// context except after cancellation, where the error is expected and ignored.
+type ctxClient struct {
+	dynamic.Interface
+	dead *int64 // requests refused because their context was done
+}
+
+func (c *ctxClient) Resource(gvr schema.GroupVersionResource) dynamic.NamespaceableResourceInterface {
+	return &ctxResource{NamespaceableResourceInterface: c.Interface.Resource(gvr), ri: c.Interface.Resource(gvr), dead: c.dead}
+}
+
+type ctxResource struct {
+	dynamic.NamespaceableResourceInterface
+	ri   dynamic.ResourceInterface
+	dead *int64
+}
+
+func (r *ctxResource) Namespace(ns string) dynamic.ResourceInterface {
+	return &ctxResource{NamespaceableResourceInterface: r.NamespaceableResourceInterface,
+		ri: r.NamespaceableResourceInterface.Namespace(ns), dead: r.dead}
+}
+
+func (r *ctxResource) refuse(ctx context.Context) error {
+	if err := ctx.Err(); err != nil {
+		atomic.AddInt64(r.dead, 1)
+		return err
+	}
+	return nil
+}
+
+func (r *ctxResource) Get(ctx context.Context, name string, o metav1.GetOptions, sub ...string) (*unstructured.Unstructured, error) {
+	if err := r.refuse(ctx); err != nil {
+		return nil, err
+	}
+	return r.ri.Get(ctx, name, o, sub...)
+}
+
+func (r *ctxResource) List(ctx context.Context, o metav1.ListOptions) (*unstructured.UnstructuredList, error) {
+	if err := r.refuse(ctx); err != nil {
+		return nil, err
+	}
+	return r.ri.List(ctx, o)
+}
+
+func (r *ctxResource) Watch(ctx context.Context, o metav1.ListOptions) (watch.Interface, error) {
+	if err := r.refuse(ctx); err != nil {
+		return nil, err
+	}
+	return r.ri.Watch(ctx, o)
+}
 
 func (k kindInfo) gvr() schema.GroupVersionResource {
 	return schema.GroupVersionResource{Group: k.gvk.Group, Version: k.gvk.Version, Resource: k.resource}
@@ -97,6 +155,12 @@ const nVariants = 6
 // until its context is cancelled and then returns the context error (what the
 // built-in readers do when a cluster lookup is interrupted)
 const variantSlow = 6
+
+// Pod versions: variantUnsched = Pending, PodScheduled=False/Unschedulable, created
+// just now (InProgress inside status.ScheduleWindow, Failed beyond it);
+// variantPodReady = Running and Ready (Current)
+const variantUnsched = 7
+const variantPodReady = 8
 const slowAnnotation = "verif.c16/slow-status-read"
 
 // slowStatusReader wraps the default reader; see variantSlow.
@@ -130,6 +194,21 @@ func buildObject(o oid, variant int) *unstructured.Unstructured {
 		_ = unstructured.SetNestedSlice(u.Object, []interface{}{
 			map[string]interface{}{"type": t, "status": s, "reason": "r", "message": "m"},
 		}, "status", "conditions")
+	}
+	if o.gk == kPod {
+		u.SetCreationTimestamp(metav1.NewTime(time.Now()))
+		_ = unstructured.SetNestedSlice(u.Object, []interface{}{
+			map[string]interface{}{"name": "c", "image": "nginx"}}, "spec", "containers")
+		if variant == variantPodReady {
+			_ = unstructured.SetNestedField(u.Object, "Running", "status", "phase")
+			cond("Ready", "True")
+		} else {
+			_ = unstructured.SetNestedField(u.Object, "Pending", "status", "phase")
+			_ = unstructured.SetNestedSlice(u.Object, []interface{}{
+				map[string]interface{}{"type": "PodScheduled", "status": "False", "reason": "Unschedulable",
+					"message": "0/3 nodes are available"}}, "status", "conditions")
+		}
+		return u
 	}
 	if o.gk == kCRD {
 		_ = unstructured.SetNestedField(u.Object, "example.com", "spec", "group")
@@ -348,6 +427,9 @@ type rscript struct {
 	}
 	forbid map[int]bool // kinds whose LIST is Forbidden
 	steps  []rstep
+	// statuses the DELAYED re-check (status.ScheduleWindow after an unschedulable
+	// pod was seen) must report after the "tick" step, per object
+	late map[oid][]string
 }
 
 type revent struct {
@@ -364,6 +446,8 @@ type robs struct {
 	unknown    int   // update events for ids outside the universe
 	selfClosed bool  // channel closed before the harness cancelled
 	marks      []int // number of events received when each step began
+	tickMark   int   // events received when the wait for the delayed re-check began (-1: no such wait)
+	deadCtx    int64 // requests the client refused because their context was done
 }
 
 func idOf(m object.ObjMetadata) (oid, bool) {
@@ -412,7 +496,7 @@ func waitQuiet(act *int64, quiet, max time.Duration) {
 }
 
 func runReporterScript(sc *rscript) (obs *robs) {
-	obs = &robs{}
+	obs = &robs{tickMark: -1}
 	defer func() {
 		if e := recover(); e != nil {
 			obs.panicMsg = fmt.Sprint(e)
@@ -510,7 +594,9 @@ func runReporterScript(sc *rscript) (obs *robs) {
 	}
 	ctx, cancel := context.WithCancel(context.Background())
 	defer cancel()
-	w := watcher.NewDefaultStatusWatcher(client, mapper)
+	var dead int64
+	defer func() { obs.deadCtx = atomic.LoadInt64(&dead) }()
+	w := watcher.NewDefaultStatusWatcher(&ctxClient{Interface: client, dead: &dead}, mapper)
 	w.StatusReader = &slowStatusReader{StatusReader: statusreaders.NewDefaultStatusReader(mapper), act: &act}
 	ch := w.Watch(ctx, ids, watcher.Options{RESTScopeStrategy: strategy})
 
@@ -578,9 +664,11 @@ func runReporterScript(sc *rscript) (obs *robs) {
 			forbidMu.Unlock()
 			continue
 		}
-		mu.Lock()
-		obs.marks = append(obs.marks, len(obs.events))
-		mu.Unlock()
+		if s.kind != "tick" { // a tick has no model step
+			mu.Lock()
+			obs.marks = append(obs.marks, len(obs.events))
+			mu.Unlock()
+		}
 		if s.kind == "fail" {
 			// a fatal error is due: the watcher must report it and stop by itself
 			expectFail = true
@@ -599,6 +687,33 @@ func runReporterScript(sc *rscript) (obs *robs) {
 		}
 		if s.kind == "break" {
 			atomic.StoreInt32(&dropFlag[s.id.gk], 1)
+			continue
+		}
+		if s.kind == "tick" {
+			// let status.ScheduleWindow elapse: the re-check scheduled for an
+			// unschedulable pod fires (if it is still due)
+			mu.Lock()
+			obs.tickMark = len(obs.events)
+			mu.Unlock()
+			want := 0
+			for _, l := range sc.late {
+				want += len(l)
+			}
+			deadline := time.Now().Add(status.ScheduleWindow + 3*time.Second)
+			minimum := time.Now().Add(status.ScheduleWindow + 1500*time.Millisecond)
+			for time.Now().Before(deadline) {
+				mu.Lock()
+				got := len(obs.events) - obs.tickMark
+				mu.Unlock()
+				if want > 0 && got >= want && time.Now().After(minimum.Add(-1400*time.Millisecond)) {
+					break
+				}
+				if want == 0 && time.Now().After(minimum) {
+					break
+				}
+				time.Sleep(20 * time.Millisecond)
+			}
+			waitQuiet(&act, 100*time.Millisecond, 2*time.Second)
 			continue
 		}
 		if s.kind == "relist" {
@@ -1085,6 +1200,37 @@ func genGapScript(r *rand.Rand) *rscript {
 	return sc
 }
 
+// unschedulableScripts: a Pod created Pending/Unschedulable and then left alone;
+// only the re-check the reporter schedules status.ScheduleWindow later can report
+// that it turned Failed.  Each script waits out the window (about 17 s): they run
+// concurrently with the rest of the stream.
+func unschedulableScripts(tier string) []*rscript {
+	var l []*rscript
+	n := 1
+	if tier == "thorough" {
+		n = 3
+	}
+	for rep := 0; rep < n; rep++ {
+		for _, root := range []bool{true, false} {
+			pod := oid{kPod, 1, 1 + rep%2}
+			other := oid{kPod, 2, 1}
+			tick := rstep{kind: "tick"}
+			l = append(l,
+				&rscript{label: "unschedulable:stays", root: root, watched: []oid{pod, {3, 1, 1}},
+					steps: []rstep{{"add", pod, variantUnsched}, {"add", other, variantUnsched}, {"add", oid{3, 1, 1}, 0}, tick},
+					late:  map[oid][]string{pod: {"SFailed"}}},
+				&rscript{label: "unschedulable:scheduled-in-time", root: root, watched: []oid{pod},
+					steps: []rstep{{"add", pod, variantUnsched}, {"update", pod, variantPodReady}, tick}},
+				&rscript{label: "unschedulable:deleted-in-time", root: root, watched: []oid{pod},
+					steps: []rstep{{"add", pod, variantUnsched}, {"delete", pod, 0}, tick}},
+				&rscript{label: "unschedulable:cancelled-in-time", root: root, watched: []oid{pod},
+					steps: []rstep{{"add", pod, variantUnsched}, {"cancel", oid{}, 0}, tick}},
+			)
+		}
+	}
+	return l
+}
+
 // ---- emission ----------------------------------------------------------------------------
 
 func (sc *rscript) caseTerm(o *robs) (string, string) {
@@ -1129,6 +1275,8 @@ func (sc *rscript) caseTerm(o *robs) (string, string) {
 		case "cancel":
 			steps = append(steps, "SCancel")
 			txt = append(txt, "cancel")
+		case "tick":
+			txt = append(txt, "WAIT ScheduleWindow")
 		case "break":
 			steps = append(steps, fmt.Sprintf("(SBreak %d)", s.id.gk))
 			txt = append(txt, "BREAK-WATCH "+kinds[s.id.gk].gvk.Kind)
@@ -1179,11 +1327,25 @@ func (sc *rscript) caseTerm(o *robs) (string, string) {
 		}
 	}
 	sort.Strings(ftxt)
-	term := fmt.Sprintf("(mkRCase (mkConfig %s %s %s) %s %s %s %s %d %s %s)", scope, emit.List(watched), emit.NatList(builtin),
-		emit.List(pre), emit.List(steps), emit.List(evs), emit.Bool(o.closed), o.unknown, emit.NatList(o.marks), emit.Bool(o.selfClosed))
+	tick := len(o.events)
+	if o.tickMark >= 0 {
+		tick = o.tickMark
+	}
+	var late []string
+	var lateIDs []oid
+	for id := range sc.late {
+		lateIDs = append(lateIDs, id)
+	}
+	sort.Slice(lateIDs, func(i, j int) bool { return lateIDs[i].String() < lateIDs[j].String() })
+	for _, id := range lateIDs {
+		late = append(late, fmt.Sprintf("(%s, %s)", id.term(), emit.List(sc.late[id])))
+	}
+	term := fmt.Sprintf("(mkRCase (mkConfig %s %s %s) %s %s %s %s %d %s %s %d %s)", scope, emit.List(watched), emit.NatList(builtin),
+		emit.List(pre), emit.List(steps), emit.List(evs), emit.Bool(o.closed), o.unknown, emit.NatList(o.marks), emit.Bool(o.selfClosed),
+		tick, emit.List(late))
 	text := fmt.Sprintf("watcher[%s] scope=%s watched=[%s] pre=[%s] forbidden=[%s] steps=[%s] -> events=[%s] closed=%v",
 		sc.label, strings.TrimPrefix(scope, "Scope"), strings.Join(wtxt, ","), strings.Join(ptxt, ","), strings.Join(ftxt, ","),
-		strings.Join(txt, "; "), strings.Join(etxt, " "), fmt.Sprintf("%v self-closed=%v", o.closed, o.selfClosed))
+		strings.Join(txt, "; "), strings.Join(etxt, " "), fmt.Sprintf("%v self-closed=%v events-before-wait=%d", o.closed, o.selfClosed, tick))
 	return term, text
 }
 
@@ -1238,10 +1400,21 @@ func runReporter(r *rand.Rand, tier, outDir string, sum *emit.Summary) error {
 	time.Sleep(50 * time.Millisecond)
 	baseline := runtime.NumGoroutine()
 
+	// the scripts that wait out status.ScheduleWindow run beside the others
+	slow := unschedulableScripts(tier)
+	nFast := len(scripts)
+	scripts = append(scripts, slow...)
 	obs := make([]*robs, len(scripts))
 	var wg sync.WaitGroup
+	for i := nFast; i < len(scripts); i++ {
+		wg.Add(1)
+		go func(i int) {
+			defer wg.Done()
+			obs[i] = runReporterScript(scripts[i])
+		}(i)
+	}
 	sem := make(chan struct{}, 8)
-	for i := range scripts {
+	for i := 0; i < nFast; i++ {
 		wg.Add(1)
 		sem <- struct{}{}
 		go func(i int) {
